@@ -54,10 +54,13 @@ def run(ch, config, res):
         shapes = wl.flag("status_shapes", 1, 3)
         # the session may be opened with any mechanism, with or without an authorisation id: what connect() reports has to
         # match what the server decided whichever exchange led there
-        sasl = [["PLAIN"], ["DIGEST-MD5"], ["LOGIN"], ["OAUTHBEARER"]][wl.weighted("sasl", [5, 2, 1, 1])]
+        sasl = [["PLAIN"], ["DIGEST-MD5"], ["LOGIN"], ["OAUTHBEARER"], ["DIGEST-MD5", "PLAIN"]][wl.weighted("sasl", [5, 2, 1, 1, 1])]
         authz = "admin" if (sasl[0] in ("PLAIN", "DIGEST-MD5") and wl.flag("authz", 1, 3)) else ""
         use_tls = wl.flag("starttls", 1, 3)        # a third of the sessions run over STARTTLS
     cfg = ServerConfig(version=version, max_scripts=3, max_script_size=120, max_total=260, sasl_pre=sasl, starttls=use_tls)
+    with ch.scope("srvcfg"):
+        # the digest-challenge may offer a choice of protections (the client's "auth" among them)
+        cfg.digest_qop = ["auth", "auth,auth-int", "auth-conf,auth"][ch.srv.weighted("qop", [4, 1, 1])]
     world = World(ch, cfg, client_impl=config.get("client", "real"), read_size=rsz)
     srv = world.server
     srv.order_variation = True
@@ -322,7 +325,7 @@ def run(ch, config, res):
 
 
 def jobs(tier, seed, scale=1.0):
-    n = int((20000 if tier == "quick" else 3000000) * scale)
+    n = int((14000 if tier == "quick" else 3000000) * scale)
     B = 100
     return [{"kind": "random", "i": i, "n": min(B, n - i)} for i in range(0, n, B)]
 
